@@ -35,6 +35,7 @@ def run(ctx):
     ctx.coq_properties("Properties/Properties_C02_hist.v")
     fr.run_free(ctx, quick, prop_words="C01")
     m3.run_micro3(ctx, quick)          # extension K (theorems Properties/Properties_C01_micro3.v + two-hold baton on feb.c)
+    from . import _link; _link.run_link(ctx, quick, "feb")    # extension R: Feb/Model runs are accepted histories (Properties_C01_link.v + executed cross-check)
 
 
 def replay(ctx, path):
